@@ -86,7 +86,9 @@ func (gw *eventBasedGateway) run(ctx context.Context, sender tracing.ISenderHand
 								}
 								close(ch)
 							}
-							terminationChannels = make(map[schema.IdRef]chan bool)
+							// The channels stay reachable: an alternative that reaches
+							// its select only now must still find its (buffered)
+							// withdrawal, so the map is not replaced.
 							return action
 						} else {
 							return completeAction{}
